@@ -11,11 +11,11 @@ Definition toy (fn ext : Z) (args : list karg) : option arr :=
   | [] => None
   end.
 
-Definition qs := mkQ true false false false false.
-Definition qa := mkQ false true false false false.
-Definition qr := mkQ false false true false false.
-Definition qv := mkQ false false false true false.
-Definition qh := mkQ false false false false true.
+Definition qs := mkQ true false false false false false.
+Definition qa := mkQ false true false false false false.
+Definition qr := mkQ false false true false false false.
+Definition qv := mkQ false false false true false false.
+Definition qh := mkQ false false false false true false.
 
 Definition a3 : arr := ([0; 3], [10; 20; 30]).
 Definition a13 : arr := ([0; 1; 3], [10; 20; 30]).
@@ -78,3 +78,13 @@ Proof. exists toy, w_ro. split; [vm_compute; reflexivity|]. vm_compute. right. r
 Lemma time_refuted : exists tf ops, trun tf true ([], []) ops <> trun_uncached tf true ([], []) ops
                                     /\ trun tf false ([], []) ops = trun_uncached tf false ([], []) ops.
 Proof. exists ttoy, w_time. exact time_witness. Qed.
+
+(* scalar memo keys compared by value: a single llh position with lat = -0.0 gets the rotation matrix made for +0.0 *)
+Definition qz := mkQ false false false false false true.
+Definition lz_pos : arr := ([0; 3], [0; 5; 7]).
+Definition lz_neg : arr := ([0; 3], [9223372036854775808; 5; 7]).
+Definition w_sval : list op := [NewPos 0 2 lz_pos; NewPos 1 2 lz_neg; Read 0 5; Read 1 5].
+Lemma sval_witness : differs qz w_sval = true /\ differs all_off w_sval = false.
+Proof. split; vm_compute; reflexivity. Qed.
+Lemma sval_refuted : exists pf ops, fst (run pf qz empty_world ops) <> fst (run_uncached pf qz empty_world ops).
+Proof. exists toy, w_sval. apply differs_neq. exact (proj1 sval_witness). Qed.
